@@ -1287,7 +1287,7 @@ func c02RunTopology(t *testing.T, r *kit.Result, seed int64, stream uint64, case
 func TestVerif_C02_Requests(t *testing.T) {
 	seed := kit.Seed(2)
 	shard, _ := kit.Shard()
-	r := kit.NewResult(t, "c02-requests", seed, "generated namespace trees (depth<=3) x recording secrets/auth mounts at nested and sibling-prefix paths x generated ACL policies (exact, trailing-*, + segments, deny, sudo) x tokens in the states {absent, garbage, one character / one byte (head, middle, signature) flipped, truncated signature, revoked, expired, exhausted, last use, CIDR-bound, disabled entity, batch, batch mutated / expired / parent revoked, other namespace, root}; every request (plain, rule-directed and hostile forms: trailing and doubled slashes, ./.. segments, mount-boundary, namespace by header or by path prefix, unknown namespaces, restricted sys APIs in child namespaces, internal operations) is judged by the reference authoriser and compared with handler log, response class, tagged physical writes and a digest of the recording mounts' storage; configuration changes (policy rewrite/delete/recreate, token revocation, entity disable / entity policies, unmount / mount) are bracketed by the same request before and immediately after. A case is non-trivial when (a) a request was refused only because of the token state while its policies allow it, (b) an authorised request reached the handler, or (c) a mutation flipped the verdict of the very next request; distinct by (state, op, mount, backend path)")
+	r := kit.NewResult(t, "c02-requests", seed, "generated namespace trees (depth<=3) x recording secrets/auth mounts at nested and sibling-prefix paths x generated ACL policies (exact, trailing-*, + segments, deny, sudo) x tokens in the states {absent, garbage, one character / one byte (head, middle, signature) flipped, truncated signature, revoked, expired, exhausted, last use, CIDR-bound, disabled entity, batch, batch mutated / expired / parent revoked, other namespace, root}; every request (plain, rule-directed and hostile forms: trailing and doubled slashes, ./.. segments, mount-boundary, namespace by header or by path prefix, unknown namespaces, restricted sys APIs in child namespaces, internal operations) is judged by the reference authoriser and compared with handler log, response class, tagged physical writes and a digest of the recording mounts' storage; configuration changes (policy rewrite/delete/recreate, token revocation by id / accessor / self, entity disable and entity policies, unmount / mount / remount, one seal-unseal cycle with requests against the sealed core) are bracketed by the same request before and immediately after; three of four topologies run with the cache (and therefore the policy LRU) enabled, half on a transactional store. A case is non-trivial when (a) a request was refused only because of the token state while its policies allow it, (b) an authorised request reached the handler, or (c) a mutation flipped the verdict of the very next request; distinct by (state, op, mount, backend path)")
 	defer r.Write(t)
 	ntopo := kit.N(24, 100)
 	nreq := kit.N(800, 2500)
